@@ -236,7 +236,26 @@ func completedActions(inv *Inv) (completed, attempts, skippedBefore int) {
 	return
 }
 
-type c08sm struct{ x func() *X }
+type c08sm struct {
+	x func() *X
+	c08helpers
+}
+
+// helper methods of a state-machine type (some promoted from an embedded struct) are not actions: an action is an
+// exported method taking a *rapid.T or a rapid.TB and nothing else
+type c08helpers struct{ log func(string) }
+
+func (h c08helpers) Lock()   { h.log("act> Lock") }
+func (h c08helpers) Unlock() { h.log("act> Unlock") }
+func (m *c08sm) Reset()      { m.x().ev("act> Reset") }
+func (m *c08sm) Close() error {
+	m.x().ev("act> Close")
+	return nil
+}
+func (m *c08sm) Len() int                   { return 0 }
+func (m *c08sm) Two(a, b *rapid.T)          { m.x().ev("act> Two") }
+func (m *c08sm) Variadic(ts ...*rapid.T)    { m.x().ev("act> Variadic") }
+func (m *c08sm) WithResult(t *rapid.T) bool { m.x().ev("act> WithResult"); return true }
 
 func (m *c08sm) Check(t *rapid.T) { x := m.x(); x.ev("check>"); x.ev("check<") }
 func (m *c08sm) ActT(t *rapid.T) {
@@ -466,7 +485,7 @@ func c08Run(t *testing.T, sc Scenario, res *Result) {
 	case "struct":
 		// StateMachineActions: exported func(*T)/func(TB) methods are actions, Check is the invariant only
 		lg := &Log{keepAll: true}
-		sm := &c08sm{x: func() *X { return curX }}
+		sm := &c08sm{x: func() *X { return curX }, c08helpers: c08helpers{log: func(e string) { curX.ev("%s", e) }}}
 		setFlags(map[string]string{"rapid.steps": "10", "rapid.checks": "30", "rapid.nofailfile": "true"})
 		tb := newTB("C08s")
 		runCheck(tb, lg.prop(func(x *X) { x.t.Repeat(rapid.StateMachineActions(sm)) }))
